@@ -226,7 +226,7 @@ theorem wf_find {nodes : Nodes} (hwf : nodes.wf = true) {n : Node} (hn : n ∈ n
     · have hne : (m.key == n.key) = false := by
         have := hdist n hn
         simp at this
-        simp [beq_iff_eq]
+        simp
         exact fun h => this h.symm
       rw [hne]
       exact wf_find hms hn
@@ -477,5 +477,646 @@ theorem level_opts {F : Facts} (hS : F.strip = 1) {nodes : Nodes} {opts : List O
     · obtain ⟨lp, hpe⟩ := extract_ok_paths he o ho _ hk
       exact ⟨o, ho, Or.inr ⟨_, hk, lp, hpe,
         (pathEntry_ok_opt hS hpe k _).mpr ⟨_, hfind, by simp, Or.inr ⟨rest, hr, rfl, rfl⟩⟩⟩⟩
+
+
+
+/-! ### specification vocabulary -/
+
+/-- designated part: one of `o`'s designated paths is `rel` itself or a node above it -/
+def CoversD (o : Opt) (rel : Path) : Prop := ∃ q ∈ o.paths, q ≠ [] ∧ q <+: rel
+
+/-- `o` addresses the node at (relative) path `rel` -/
+def Covers (o : Opt) (rel : Path) : Prop := o.paths = [] ∨ CoversD o rel
+
+/-- the node a path names, walking down through graph nodes only -/
+def nodeAt : Nodes → Path → Option Node
+  | _, [] => none
+  | ns, k :: rest =>
+    match ns.find k with
+    | none => none
+    | some n =>
+      if rest = [] then some n
+      else match n with
+        | .graph _ ch => nodeAt ch rest
+        | _ => none
+
+theorem nodeAt_ne_nil {ns : Nodes} {p : Path} {n : Node} (h : nodeAt ns p = some n) : p ≠ [] := by
+  cases p with
+  | nil => simp [nodeAt] at h
+  | cons => simp
+
+theorem prefix_singleton {q : Path} {k : Key} (hne : q ≠ []) : q <+: [k] ↔ q = [k] := by
+  cases q with
+  | nil => exact absurd rfl hne
+  | cons a as =>
+    constructor
+    · intro h
+      have := List.cons_prefix_cons.mp h
+      obtain ⟨rfl, h2⟩ := this
+      have : as = [] := List.prefix_nil.mp h2
+      rw [this]
+    · intro h; rw [h]; exact List.prefix_refl _
+
+theorem coversD_singleton {o : Opt} {k : Key} : CoversD o [k] ↔ [k] ∈ o.paths := by
+  unfold CoversD
+  constructor
+  · rintro ⟨q, hq, hne, hp⟩; rw [(prefix_singleton hne).mp hp] at hq; exact hq
+  · intro h; exact ⟨[k], h, by simp, List.prefix_refl _⟩
+
+theorem coversD_nil {o : Opt} : ¬ CoversD o [] := by
+  rintro ⟨q, _, hne, hp⟩; exact hne (List.prefix_nil.mp hp)
+
+theorem mem_graphHandlers {opts : List Opt} {h : Nat} :
+    h ∈ graphHandlers opts ↔ ∃ o ∈ opts, o.paths = [] ∧ h ∈ o.handlers := by
+  unfold graphHandlers
+  simp only [List.mem_flatMap]
+  constructor
+  · rintro ⟨o, ho, hh⟩
+    split at hh
+    · rename_i hp; exact ⟨o, ho, hp, hh⟩
+    · cases hh
+  · rintro ⟨o, ho, hp, hh⟩; exact ⟨o, ho, by simp [hp, hh]⟩
+
+theorem mem_nodeHandlers {opts : List Opt} {k : Key} {h : Nat} :
+    h ∈ nodeHandlers opts k ↔ ∃ o ∈ opts, [k] ∈ o.paths ∧ h ∈ o.handlers := by
+  unfold nodeHandlers
+  simp only [List.mem_flatMap]
+  constructor
+  · rintro ⟨o, ho, hh⟩
+    split at hh
+    · rename_i hp; exact ⟨o, ho, hp, hh⟩
+    · cases hh
+  · rintro ⟨o, ho, hp, hh⟩; exact ⟨o, ho, by simp [hp, hh]⟩
+
+/-- the Options a graph node hands to its nested run, in terms of the enclosing run's -/
+def SubOf (opts sub : List Opt) (k : Key) : Prop :=
+  ∀ o', o' ∈ sub ↔ ∃ o ∈ opts,
+      (o.paths = [] ∧ o.vals ≠ [] ∧ o' = o) ∨
+      ([k] ∈ o.paths ∧ o.vals ≠ [] ∧ o' = { o with paths := [] }) ∨
+      (∃ rest, rest ≠ [] ∧ k :: rest ∈ o.paths ∧ o' = { o with paths := [rest] })
+
+theorem sub_vals {opts sub : List Opt} {k : Key} (hsub : SubOf opts sub k) (rel' : Path)
+    (v ty : Nat) :
+    (∃ o' ∈ sub, v ∈ o'.vals ∧ ty = o'.ty ∧ Covers o' rel') ↔
+    (∃ o ∈ opts, v ∈ o.vals ∧ ty = o.ty ∧ Covers o (k :: rel')) := by
+  constructor
+  · rintro ⟨o', ho', hv, hty, hc⟩
+    obtain ⟨o, ho, (⟨h1, _, rfl⟩ | ⟨hk, _, rfl⟩ | ⟨rest, hr, hk, rfl⟩)⟩ := (hsub o').mp ho'
+    · exact ⟨o', ho, hv, hty, Or.inl h1⟩
+    · exact ⟨o, ho, hv, hty, Or.inr ⟨[k], hk, by simp, by simp [List.cons_prefix_cons]⟩⟩
+    · rcases hc with hc | ⟨q, hq, hne, hp⟩
+      · simp at hc
+      · simp only [List.mem_singleton] at hq; subst hq
+        exact ⟨o, ho, hv, hty, Or.inr ⟨k :: q, hk, by simp, List.cons_prefix_cons.mpr ⟨rfl, hp⟩⟩⟩
+  · rintro ⟨o, ho, hv, hty, hc⟩
+    have hvne : o.vals ≠ [] := by intro h; rw [h] at hv; cases hv
+    rcases hc with h1 | ⟨q, hq, hne, hp⟩
+    · exact ⟨o, (hsub o).mpr ⟨o, ho, Or.inl ⟨h1, hvne, rfl⟩⟩, hv, hty, Or.inl h1⟩
+    · cases q with
+      | nil => exact absurd rfl hne
+      | cons k0 rest0 =>
+        obtain ⟨rfl, hp'⟩ := List.cons_prefix_cons.mp hp
+        by_cases hr : rest0 = []
+        · subst hr
+          exact ⟨{ o with paths := [] }, (hsub _).mpr ⟨o, ho, Or.inr (Or.inl ⟨hq, hvne, rfl⟩)⟩,
+            hv, hty, Or.inl rfl⟩
+        · exact ⟨{ o with paths := [rest0] },
+            (hsub _).mpr ⟨o, ho, Or.inr (Or.inr ⟨rest0, hr, hq, rfl⟩)⟩,
+            hv, hty, Or.inr ⟨rest0, by simp, hr, hp'⟩⟩
+
+theorem sub_handlers {opts sub : List Opt} {k : Key} (hsub : SubOf opts sub k) {gH : List Nat}
+    (hG : ∀ h ∈ graphHandlers opts, h ∈ gH) (rel' : Path) (h : Nat) :
+    (h ∈ (gH ++ nodeHandlers opts k) ++ graphHandlers sub ∨
+        ∃ o' ∈ sub, h ∈ o'.handlers ∧ CoversD o' rel') ↔
+    (h ∈ gH ∨ ∃ o ∈ opts, h ∈ o.handlers ∧ CoversD o (k :: rel')) := by
+  constructor
+  · rintro (hm | ⟨o', ho', hh, q, hq, hne, hp⟩)
+    · simp only [List.mem_append] at hm
+      rcases hm with (hm | hm) | hm
+      · exact Or.inl hm
+      · obtain ⟨o, ho, hk, hh⟩ := mem_nodeHandlers.mp hm
+        exact Or.inr ⟨o, ho, hh, [k], hk, by simp, by simp [List.cons_prefix_cons]⟩
+      · obtain ⟨o', ho', hp', hh⟩ := mem_graphHandlers.mp hm
+        obtain ⟨o, ho, (⟨h1, _, rfl⟩ | ⟨hk, _, rfl⟩ | ⟨rest, hr, hk, rfl⟩)⟩ := (hsub o').mp ho'
+        · exact Or.inl (hG h (mem_graphHandlers.mpr ⟨o', ho, h1, hh⟩))
+        · exact Or.inr ⟨o, ho, hh, [k], hk, by simp, by simp [List.cons_prefix_cons]⟩
+        · simp at hp'
+    · obtain ⟨o, ho, (⟨h1, _, rfl⟩ | ⟨hk, _, rfl⟩ | ⟨rest, hr, hk, rfl⟩)⟩ := (hsub o').mp ho'
+      · rw [h1] at hq; cases hq
+      · cases hq
+      · simp only [List.mem_singleton] at hq; subst hq
+        exact Or.inr ⟨o, ho, hh, k :: q, hk, by simp, List.cons_prefix_cons.mpr ⟨rfl, hp⟩⟩
+  · rintro (hm | ⟨o, ho, hh, q, hq, hne, hp⟩)
+    · exact Or.inl (by simp [hm])
+    · cases q with
+      | nil => exact absurd rfl hne
+      | cons k0 rest0 =>
+        obtain ⟨rfl, hp'⟩ := List.cons_prefix_cons.mp hp
+        by_cases hr : rest0 = []
+        · subst hr
+          left
+          simp only [List.mem_append]
+          exact Or.inl (Or.inr (mem_nodeHandlers.mpr ⟨o, ho, hq, hh⟩))
+        · exact Or.inr ⟨{ o with paths := [rest0] },
+            (hsub _).mpr ⟨o, ho, Or.inr (Or.inr ⟨rest0, hr, hq, rfl⟩)⟩, hh, rest0, by simp, hr, hp'⟩
+
+
+
+/-- What the theorems say about one entry of a successful run of the graph `all` (reached
+    under path `pre`, context handlers `gH`, called with `opts`). -/
+def EntrySpec (all : Nodes) (pre : Path) (gH : List Nat) (opts : List Opt) (e : Entry) : Prop :=
+  ∃ rel, e.path = pre ++ rel ∧
+    (∃ n, nodeAt all rel = some n ∧
+      ((e.isGraph = false ∧ ∃ k ty, n = .comp k ty ∧
+          ∀ v, v ∈ e.vals ↔ ∃ o ∈ opts, v ∈ o.vals ∧ ty = o.ty ∧ Covers o rel) ∨
+       (e.isGraph = true ∧ ∃ k ch, n = .graph k ch ∧ e.vals = []))) ∧
+    (∀ h, h ∈ e.handlers ↔ h ∈ gH ∨ ∃ o ∈ opts, h ∈ o.handlers ∧ CoversD o rel)
+
+theorem nodeAt_singleton {all : Nodes} {k : Key} {n : Node} (h : all.find k = some n) :
+    nodeAt all [k] = some n := by
+  simp [nodeAt, h]
+
+theorem nodeAt_cons {all ch : Nodes} {k : Key} {rel : Path} (h : all.find k = some (.graph k ch))
+    (hr : rel ≠ []) : nodeAt all (k :: rel) = nodeAt ch rel := by
+  simp [nodeAt, h, hr]
+
+theorem subOf_of_extract {F : Facts} (hS : F.strip = 1) {all : Nodes} {opts : List Opt} {log : Log}
+    (hwf : all.wf = true) (he : extract F all opts = .ok log) {k : Key} {ch : Nodes}
+    (hn : Node.graph k ch ∈ all.toList) : SubOf opts (optsOf (itemsFor log k)) k := by
+  intro o'
+  rw [mem_opts_log]
+  exact level_opts hS hwf he hn o'
+
+mutual
+theorem runNode_sound {F : Facts} (hT : F.typeCmpIdentity = true) (hS : F.strip = 1) :
+    ∀ (n : Node) (all : Nodes) (pre : Path) (gH : List Nat) (opts : List Opt) (log : Log)
+      (out : List Entry),
+      all.wf = true → extract F all opts = .ok log → n ∈ all.toList →
+      (∀ h ∈ graphHandlers opts, h ∈ gH) →
+      runNode F pre gH opts log n = .ok out → ∀ e ∈ out, EntrySpec all pre gH opts e
+  | .comp k ty, all, pre, gH, opts, log, out, hwf, he, hn, hG, hrun => by
+    simp only [runNode, Except.ok.injEq] at hrun
+    subst hrun
+    intro e hemem
+    simp only [List.mem_singleton] at hemem
+    subst hemem
+    have hfind := wf_find hwf hn
+    simp only [Node.key] at hfind
+    refine ⟨[k], rfl, ⟨_, nodeAt_singleton hfind, Or.inl ⟨rfl, k, ty, rfl, ?_⟩⟩, ?_⟩
+    · intro v
+      simp only [mem_vals_log, level_vals hT hwf he hn v, Covers, coversD_singleton]
+    · intro h
+      simp only [List.mem_append, mem_nodeHandlers, coversD_singleton]
+      constructor
+      · rintro (h1 | ⟨o, ho, hk, hh⟩)
+        · exact Or.inl h1
+        · exact Or.inr ⟨o, ho, hh, hk⟩
+      · rintro (h1 | ⟨o, ho, hh, hk⟩)
+        · exact Or.inl h1
+        · exact Or.inr ⟨o, ho, hk, hh⟩
+  | .pass k, all, pre, gH, opts, log, out, hwf, he, hn, hG, hrun => by
+    simp only [runNode, Except.ok.injEq] at hrun
+    subst hrun
+    intro e hemem; cases hemem
+  | .graph k ch, all, pre, gH, opts, log, out, hwf, he, hn, hG, hrun => by
+    have hfind := wf_find hwf hn
+    simp only [Node.key] at hfind
+    have hsub := subOf_of_extract hS hwf he hn
+    simp only [runNode] at hrun
+    split at hrun
+    · cases hrun
+    · rename_i log' he'
+      split at hrun
+      · cases hrun
+      · rename_i es hes
+        cases hrun
+        have hG' : ∀ h ∈ graphHandlers (optsOf (itemsFor log k)),
+            h ∈ (gH ++ nodeHandlers opts k) ++ graphHandlers (optsOf (itemsFor log k)) := by
+          intro h hh; simp [hh]
+        have ih := runNodes_sound hT hS ch ch (pre ++ [k]) _ _ log' es (wf_child hwf hn) he'
+          (fun _ h => h) hG' hes
+        intro e hemem
+        rcases List.mem_cons.mp hemem with rfl | hemem
+        · refine ⟨[k], rfl, ⟨_, nodeAt_singleton hfind, Or.inr ⟨rfl, k, ch, rfl, rfl⟩⟩, ?_⟩
+          intro h
+          have := sub_handlers hsub hG [] h
+          simp only [coversD_nil, and_false, exists_false, or_false] at this
+          exact this
+        · obtain ⟨rel', hpath, ⟨n', hn', hkind⟩, hh⟩ := ih e hemem
+          have hne := nodeAt_ne_nil hn'
+          refine ⟨k :: rel', by simp [hpath], ⟨n', by rw [nodeAt_cons hfind hne]; exact hn', ?_⟩, ?_⟩
+          · rcases hkind with ⟨hg, k', ty, rfl, hv⟩ | hgr
+            · refine Or.inl ⟨hg, k', ty, rfl, ?_⟩
+              intro v
+              rw [hv v]
+              exact sub_vals hsub rel' v ty
+            · exact Or.inr hgr
+          · intro h
+            rw [hh h]
+            exact sub_handlers hsub hG rel' h
+theorem runNodes_sound {F : Facts} (hT : F.typeCmpIdentity = true) (hS : F.strip = 1) :
+    ∀ (ns : Nodes) (all : Nodes) (pre : Path) (gH : List Nat) (opts : List Opt) (log : Log)
+      (out : List Entry),
+      all.wf = true → extract F all opts = .ok log → (∀ n ∈ ns.toList, n ∈ all.toList) →
+      (∀ h ∈ graphHandlers opts, h ∈ gH) →
+      runNodes F pre gH opts log ns = .ok out → ∀ e ∈ out, EntrySpec all pre gH opts e
+  | .nil, all, pre, gH, opts, log, out, hwf, he, hns, hG, hrun => by
+    simp only [runNodes, Except.ok.injEq] at hrun
+    subst hrun
+    intro e hemem; cases hemem
+  | .cons n ns, all, pre, gH, opts, log, out, hwf, he, hns, hG, hrun => by
+    simp only [runNodes] at hrun
+    split at hrun
+    · cases hrun
+    · rename_i a ha
+      split at hrun
+      · cases hrun
+      · rename_i b hb
+        cases hrun
+        intro e hemem
+        rcases List.mem_append.mp hemem with h | h
+        · exact runNode_sound hT hS n all pre gH opts log a hwf he
+            (hns n (by simp [Nodes.toList])) hG ha e h
+        · exact runNodes_sound hT hS ns all pre gH opts log b hwf he
+            (fun m hm => hns m (by simp [Nodes.toList, hm])) hG hb e h
+end
+
+
+
+/-! ### completeness: every component / graph node of the tree has an entry -/
+
+theorem find_cons (n : Node) (ns : Nodes) (k : Key) :
+    (Nodes.cons n ns).find k = if n.key = k then some n else ns.find k := by
+  unfold Nodes.find
+  simp only [Nodes.toList, List.find?_cons]
+  by_cases h : n.key = k
+  · simp [h]
+  · have : (n.key == k) = false := by simp [h]
+    simp [this, h]
+
+def Node.isPass : Node → Bool
+  | .pass _ => true
+  | _ => false
+
+mutual
+theorem runNode_complete {F : Facts} :
+    ∀ (n : Node) (pre : Path) (gH : List Nat) (opts : List Opt) (log : Log) (out : List Entry),
+      runNode F pre gH opts log n = .ok out →
+      (n.isPass = false → ∃ e ∈ out, e.path = pre ++ [n.key]) ∧
+      (∀ k ch rel n', n = .graph k ch → nodeAt ch rel = some n' → n'.isPass = false →
+        ∃ e ∈ out, e.path = pre ++ k :: rel)
+  | .comp k ty, pre, gH, opts, log, out, hrun => by
+    simp only [runNode, Except.ok.injEq] at hrun
+    subst hrun
+    refine ⟨fun _ => ⟨_, List.mem_singleton.mpr rfl, rfl⟩, ?_⟩
+    intro k' ch rel n' h; cases h
+  | .pass k, pre, gH, opts, log, out, hrun => by
+    refine ⟨fun h => by simp [Node.isPass] at h, ?_⟩
+    intro k' ch rel n' h; cases h
+  | .graph k ch, pre, gH, opts, log, out, hrun => by
+    simp only [runNode] at hrun
+    split at hrun
+    · cases hrun
+    · rename_i log' he'
+      split at hrun
+      · cases hrun
+      · rename_i es hes
+        cases hrun
+        refine ⟨fun _ => ⟨_, List.mem_cons_self, rfl⟩, ?_⟩
+        intro k' ch' rel n' h hn' hp
+        cases h
+        obtain ⟨e, he, hpath⟩ := runNodes_complete ch (pre ++ [k]) _ _ log' es hes rel n' hn' hp
+        exact ⟨e, List.mem_cons_of_mem _ he, by simp [hpath]⟩
+theorem runNodes_complete {F : Facts} :
+    ∀ (ns : Nodes) (pre : Path) (gH : List Nat) (opts : List Opt) (log : Log) (out : List Entry),
+      runNodes F pre gH opts log ns = .ok out →
+      ∀ rel n', nodeAt ns rel = some n' → n'.isPass = false → ∃ e ∈ out, e.path = pre ++ rel
+  | .nil, pre, gH, opts, log, out, hrun => by
+    intro rel n' h
+    cases rel with
+    | nil => simp [nodeAt] at h
+    | cons k rest => simp [nodeAt, Nodes.find, Nodes.toList] at h
+  | .cons n ns, pre, gH, opts, log, out, hrun => by
+    simp only [runNodes] at hrun
+    split at hrun
+    · cases hrun
+    · rename_i a ha
+      split at hrun
+      · cases hrun
+      · rename_i b hb
+        cases hrun
+        intro rel n' h hp
+        cases rel with
+        | nil => simp [nodeAt] at h
+        | cons k rest =>
+          by_cases hk : n.key = k
+          · have hf : (Nodes.cons n ns).find k = some n := by rw [find_cons]; simp [hk]
+            simp only [nodeAt, hf] at h
+            obtain ⟨h1, h2⟩ := runNode_complete n pre gH opts log a ha
+            by_cases hr : rest = []
+            · subst hr
+              simp only [↓reduceIte, Option.some.injEq] at h
+              subst h
+              obtain ⟨e, he, hpath⟩ := h1 hp
+              exact ⟨e, List.mem_append_left _ he, by rw [hpath, hk]⟩
+            · simp only [hr, ↓reduceIte] at h
+              cases n with
+              | comp k' ty => cases h
+              | pass k' => cases h
+              | graph k' ch =>
+                simp only [Node.key] at hk
+                subst hk
+                obtain ⟨e, he, hpath⟩ := h2 k' ch rest n' rfl h hp
+                exact ⟨e, List.mem_append_left _ he, hpath⟩
+          · have hf : (Nodes.cons n ns).find k = ns.find k := by rw [find_cons]; simp [hk]
+            have h' : nodeAt ns (k :: rest) = some n' := by
+              simp only [nodeAt, hf] at h
+              simpa only [nodeAt] using h
+            obtain ⟨e, he, hpath⟩ := runNodes_complete ns pre gH opts log b hb (k :: rest) n' h' hp
+            exact ⟨e, List.mem_append_right _ he, hpath⟩
+end
+
+
+
+/-! ### which designated paths are rejected -/
+
+/-- The verdict on one designated path `p` of option `o` against the tree: why the run that
+    receives it fails, if it does. Walks down through graph nodes. -/
+def pathErr (F : Facts) : Nodes → Opt → Path → Option Err
+  | _, _, [] => some .emptyPath
+  | ns, o, k :: rest =>
+    match ns.find k with
+    | none => some .unknownNode
+    | some (.comp _ ty) =>
+      if rest ≠ [] then some .subPathOfComponent
+      else if o.vals ≠ [] ∧ F.typeCmpIdentity = true ∧ ty ≠ o.ty then some .wrongType
+      else none
+    | some (.pass _) =>
+      if rest ≠ [] ∧ F.passSubPathIsError = true then some .subPathOfComponent else none
+    | some (.graph _ ch) => if rest = [] then none else pathErr F ch o rest
+
+theorem pathErr_congr {F : Facts} {o o' : Opt} (hv : o'.vals = o.vals) (ht : o'.ty = o.ty) :
+    ∀ (p : Path) (ns : Nodes), pathErr F ns o' p = pathErr F ns o p
+  | [], ns => by simp [pathErr]
+  | k :: rest, ns => by
+    simp only [pathErr]
+    cases ns.find k with
+    | none => rfl
+    | some n =>
+      cases n with
+      | comp k' ty => simp only [hv, ht]
+      | pass k' => rfl
+      | graph k' ch =>
+        simp only
+        split
+        · rfl
+        · exact pathErr_congr hv ht rest ch
+
+/-- One step of `pathErr`: the path fails at this level, or it continues into a graph node
+    and fails further down. -/
+theorem pathErr_step {F : Facts} (ns : Nodes) (o : Opt) (p : Path) :
+    (pathErr F ns o p).isSome = true ↔
+      (∃ e, pathEntry F ns o p = .error e) ∨
+      (∃ k k' ch rest, p = k :: rest ∧ rest ≠ [] ∧ ns.find k = some (.graph k' ch) ∧
+        (pathErr F ch o rest).isSome = true) := by
+  cases p with
+  | nil => simp [pathErr, pathEntry]
+  | cons k rest =>
+    simp only [pathErr, pathEntry]
+    cases hf : ns.find k with
+    | none => simp
+    | some n =>
+      cases n with
+      | comp k' ty =>
+        by_cases hr : rest = []
+        · subst hr
+          by_cases hv : o.vals = []
+          · simp [hv]
+          · by_cases hty : ty = o.ty
+            · simp [hv, hty]
+            · by_cases hT : F.typeCmpIdentity = true
+              · simp [hv, hty, hT]
+              · simp [hv, hty, hT]
+        · simp [hr]
+      | pass k' =>
+        by_cases hr : rest = []
+        · subst hr
+          by_cases hv : o.vals = [] <;> simp [hv]
+        · by_cases hP : F.passSubPathIsError = true
+          · simp [hr, hP]
+          · have hP' : F.passSubPathIsError = false := by simpa using hP
+            simp only [hr, hP', Bool.false_eq_true, and_false, ↓reduceIte]
+            constructor
+            · intro h; simp at h
+            · rintro (⟨e, he⟩ | ⟨k0, k'', ch', rest', heq, _, hf', _⟩)
+              · cases he
+              · cases heq; rw [hf] at hf'; cases hf'
+      | graph k' ch =>
+        by_cases hr : rest = []
+        · subst hr
+          by_cases hv : o.vals = [] <;> simp [hv]
+        · simp only [hr, ↓reduceIte]
+          constructor
+          · intro h; exact Or.inr ⟨k, k', ch, rest, rfl, hr, hf, h⟩
+          · rintro (⟨e, he⟩ | ⟨k0, k'', ch', rest', heq, _, hf', h⟩)
+            · cases he
+            · cases heq; rw [hf] at hf'; cases hf'; exact h
+
+theorem sub_err {F : Facts} {opts sub : List Opt} {k : Key} (hsub : SubOf opts sub k) (ch : Nodes) :
+    (∃ o' ∈ sub, ∃ p' ∈ o'.paths, (pathErr F ch o' p').isSome = true) ↔
+    (∃ o ∈ opts, ∃ rest, rest ≠ [] ∧ k :: rest ∈ o.paths ∧ (pathErr F ch o rest).isSome = true) := by
+  constructor
+  · rintro ⟨o', ho', p', hp', herr⟩
+    obtain ⟨o, ho, (⟨h1, _, rfl⟩ | ⟨hk, _, rfl⟩ | ⟨rest, hr, hk, rfl⟩)⟩ := (hsub o').mp ho'
+    · rw [h1] at hp'; cases hp'
+    · cases hp'
+    · simp only [List.mem_singleton] at hp'; subst hp'
+      have hc := pathErr_congr (F := F) (o := o) (o' := { o with paths := [p'] }) rfl rfl p' ch
+      rw [hc] at herr
+      exact ⟨o, ho, p', hr, hk, herr⟩
+  · rintro ⟨o, ho, rest, hr, hk, herr⟩
+    refine ⟨{ o with paths := [rest] }, (hsub _).mpr ⟨o, ho, Or.inr (Or.inr ⟨rest, hr, hk, rfl⟩)⟩,
+      rest, by simp, ?_⟩
+    have hc := pathErr_congr (F := F) (o := o) (o' := { o with paths := [rest] }) rfl rfl rest ch
+    rw [hc]; exact herr
+
+/-- The failures below one level, as `runNodes` finds them. -/
+def DeepErr (F : Facts) (ns : List Node) (opts : List Opt) : Prop :=
+  ∃ n ∈ ns, ∃ k ch, n = .graph k ch ∧
+    ∃ o ∈ opts, ∃ rest, rest ≠ [] ∧ k :: rest ∈ o.paths ∧ (pathErr F ch o rest).isSome = true
+
+theorem level_err {F : Facts} {all : Nodes} (hwf : all.wf = true) (opts : List Opt) :
+    ((∃ e, extract F all opts = .error e) ∨ DeepErr F all.toList opts) ↔
+    ∃ o ∈ opts, ∃ p ∈ o.paths, (pathErr F all o p).isSome = true := by
+  rw [extract_error_iff]
+  constructor
+  · rintro (⟨o, ho, p, hp, he⟩ | ⟨n, hn, k, ch, rfl, o, ho, rest, hr, hk, herr⟩)
+    · exact ⟨o, ho, p, hp, (pathErr_step all o p).mpr (Or.inl he)⟩
+    · have hf := wf_find hwf hn
+      simp only [Node.key] at hf
+      exact ⟨o, ho, _, hk, (pathErr_step all o _).mpr (Or.inr ⟨k, k, ch, rest, rfl, hr, hf, herr⟩)⟩
+  · rintro ⟨o, ho, p, hp, herr⟩
+    rcases (pathErr_step all o p).mp herr with he | ⟨k, k', ch, rest, rfl, hr, hf, herr'⟩
+    · exact Or.inl ⟨o, ho, p, hp, he⟩
+    · obtain ⟨hmem, hkey⟩ := find_some hf
+      simp only [Node.key] at hkey
+      subst hkey
+      exact Or.inr ⟨_, hmem, k', ch, rfl, o, ho, rest, hr, hp, herr'⟩
+
+mutual
+theorem runNode_err {F : Facts} (hS : F.strip = 1) :
+    ∀ (n : Node) (all : Nodes) (pre : Path) (gH : List Nat) (opts : List Opt) (log : Log),
+      all.wf = true → extract F all opts = .ok log → n ∈ all.toList →
+      ((∃ e, runNode F pre gH opts log n = .error e) ↔ DeepErr F [n] opts)
+  | .comp k ty, all, pre, gH, opts, log, hwf, he, hn => by
+    simp [runNode, DeepErr]
+  | .pass k, all, pre, gH, opts, log, hwf, he, hn => by
+    simp [runNode, DeepErr]
+  | .graph k ch, all, pre, gH, opts, log, hwf, he, hn => by
+    have hsub := subOf_of_extract hS hwf he hn
+    have hwf' := wf_child hwf hn
+    have hlev := level_err (F := F) hwf' (optsOf (itemsFor log k))
+    have hD : DeepErr F [Node.graph k ch] opts ↔
+        ∃ o ∈ opts, ∃ rest, rest ≠ [] ∧ k :: rest ∈ o.paths ∧ (pathErr F ch o rest).isSome = true := by
+      simp only [DeepErr, List.mem_singleton]
+      constructor
+      · rintro ⟨_, rfl, _, _, heq, h⟩; cases heq; exact h
+      · intro h; exact ⟨_, rfl, k, ch, rfl, h⟩
+    rw [hD, ← sub_err hsub ch, ← hlev]
+    simp only [runNode]
+    cases he' : extract F ch (optsOf (itemsFor log k)) with
+    | error e0 => simp
+    | ok log' =>
+      have ih := runNodes_err hS ch ch (pre ++ [k])
+        ((gH ++ nodeHandlers opts k) ++ graphHandlers (optsOf (itemsFor log k)))
+        (optsOf (itemsFor log k)) log' hwf' he' (fun _ h => h)
+      simp only [reduceCtorEq, exists_false, false_or]
+      rw [← ih]
+      cases runNodes F (pre ++ [k])
+        ((gH ++ nodeHandlers opts k) ++ graphHandlers (optsOf (itemsFor log k)))
+        (optsOf (itemsFor log k)) log' ch with
+      | error e => simp
+      | ok es => simp
+theorem runNodes_err {F : Facts} (hS : F.strip = 1) :
+    ∀ (ns : Nodes) (all : Nodes) (pre : Path) (gH : List Nat) (opts : List Opt) (log : Log),
+      all.wf = true → extract F all opts = .ok log → (∀ n ∈ ns.toList, n ∈ all.toList) →
+      ((∃ e, runNodes F pre gH opts log ns = .error e) ↔ DeepErr F ns.toList opts)
+  | .nil, all, pre, gH, opts, log, hwf, he, hns => by
+    simp [runNodes, DeepErr, Nodes.toList]
+  | .cons n ns, all, pre, gH, opts, log, hwf, he, hns => by
+    have ih1 := runNode_err hS n all pre gH opts log hwf he (hns n (by simp [Nodes.toList]))
+    have ih2 := runNodes_err hS ns all pre gH opts log hwf he
+      (fun m hm => hns m (by simp [Nodes.toList, hm]))
+    have hD : DeepErr F (Nodes.cons n ns).toList opts ↔ DeepErr F [n] opts ∨ DeepErr F ns.toList opts := by
+      simp only [DeepErr, Nodes.toList, List.mem_cons, List.not_mem_nil, or_false]
+      constructor
+      · rintro ⟨m, (rfl | hm), h⟩
+        · exact Or.inl ⟨m, rfl, h⟩
+        · exact Or.inr ⟨m, hm, h⟩
+      · rintro (⟨m, rfl, h⟩ | ⟨m, hm, h⟩)
+        · exact ⟨m, Or.inl rfl, h⟩
+        · exact ⟨m, Or.inr hm, h⟩
+    rw [hD, ← ih1, ← ih2]
+    simp only [runNodes]
+    cases runNode F pre gH opts log n with
+    | error e => simp
+    | ok a =>
+      cases runNodes F pre gH opts log ns with
+      | error e => simp
+      | ok b => simp
+end
+
+theorem run_err {F : Facts} (hS : F.strip = 1) {g : Nodes} (hwf : g.wf = true) (opts : List Opt) :
+    (∃ e, run F g opts = .error e) ↔ ∃ o ∈ opts, ∃ p ∈ o.paths, (pathErr F g o p).isSome = true := by
+  rw [← level_err hwf]
+  unfold run
+  cases he : extract F g opts with
+  | error e0 => simp
+  | ok log =>
+    have ih := runNodes_err hS g g [] (graphHandlers opts) opts log hwf he (fun _ h => h)
+    simp only [reduceCtorEq, exists_false, false_or]
+    rw [← ih]
+    cases runNodes F [] (graphHandlers opts) opts log g with
+    | error e => simp
+    | ok es => simp
+
+
+
+/-! ### `pathErr` along a path that names a node -/
+
+theorem pathErr_at {F : Facts} (o : Opt) :
+    ∀ (q : Path) (g : Nodes) (n : Node), nodeAt g q = some n →
+      pathErr F g o q =
+        match n with
+        | .comp _ ty => if o.vals ≠ [] ∧ F.typeCmpIdentity = true ∧ ty ≠ o.ty then some .wrongType else none
+        | _ => none
+  | [], g, n, h => by simp [nodeAt] at h
+  | k :: rest, g, n, h => by
+    simp only [nodeAt] at h
+    simp only [pathErr]
+    cases hf : g.find k with
+    | none => simp [hf] at h
+    | some m =>
+      simp only [hf] at h
+      by_cases hr : rest = []
+      · subst hr
+        simp only [↓reduceIte, Option.some.injEq] at h
+        subst h
+        cases m <;> simp
+      · simp only [hr, ↓reduceIte] at h
+        cases m with
+        | comp k' ty => cases h
+        | pass k' => cases h
+        | graph k' ch =>
+          simp only [hr, ↓reduceIte]
+          exact pathErr_at o rest ch n h
+
+theorem pathErr_below {F : Facts} (o : Opt) (r : Path) (hr : r ≠ []) :
+    ∀ (q : Path) (g : Nodes) (n : Node), nodeAt g q = some n →
+      pathErr F g o (q ++ r) =
+        match n with
+        | .comp _ _ => some .subPathOfComponent
+        | .pass _ => if F.passSubPathIsError = true then some .subPathOfComponent else none
+        | .graph _ ch => pathErr F ch o r
+  | [], g, n, h => by simp [nodeAt] at h
+  | k :: rest, g, n, h => by
+    simp only [nodeAt] at h
+    simp only [List.cons_append, pathErr]
+    cases hf : g.find k with
+    | none => simp [hf] at h
+    | some m =>
+      simp only [hf] at h
+      by_cases hrest : rest = []
+      · subst hrest
+        simp only [↓reduceIte, Option.some.injEq] at h
+        subst h
+        cases m <;> simp [hr]
+      · simp only [hrest, ↓reduceIte] at h
+        cases m with
+        | comp k' ty => cases h
+        | pass k' => cases h
+        | graph k' ch =>
+          have : rest ++ r ≠ [] := by simp [hrest]
+          simp only [this, ↓reduceIte]
+          exact pathErr_below o r hr rest ch n h
+
+theorem pathErr_unknown {F : Facts} (o : Opt) (g : Nodes) (k : Key) (r : Path)
+    (h : g.find k = none) : pathErr F g o (k :: r) = some .unknownNode := by
+  simp [pathErr, h]
+
+/-! ### the caller's store -/
+
+theorem storeAfterAux_copies {F : Facts} (hC : F.nestedCopies = true) (c : Call) :
+    ∀ (store : List Opt) (i : Nat), storeAfterAux F c i store = store
+  | [], i => rfl
+  | o :: os, i => by
+    simp only [storeAfterAux, afterCall, hC, ↓reduceIte, ite_self, storeAfterAux_copies hC c os (i + 1)]
+
+theorem runCalls_copies {F : Facts} (hC : F.nestedCopies = true) :
+    ∀ (cs : List Call) (store : List Opt),
+      runCalls F store cs = (cs.map (fun c => run F c.g (pick store c.ixs)), store)
+  | [], store => rfl
+  | c :: cs, store => by
+    simp only [runCalls, storeAfter, storeAfterAux_copies hC, runCalls_copies hC cs store, List.map_cons]
 
 end EinoV.C16
